@@ -7,6 +7,8 @@ EXTENDS TrieProof
 PmKeys == { <<18>>, <<18, 1>>, <<18, 2>>, <<31>> }
 PmVals == { <<1>>, Rep(33, 9) }
 PmProbe == { <<18, 3>>, <<>> }
+(* quick tier: three keys *)
+PqKeys == { <<18>>, <<18, 1>>, <<18, 2>> }
 
 (* generation: empty key, nested keys, values of 0, 1, 31, 32, 33, 40 bytes *)
 PgKeys == { <<>>, <<16>>, <<18>>, <<18, 1>>, <<18, 2>>, <<31>>, <<18, 83>>, <<18, 84>> }
